@@ -15,9 +15,11 @@
 package lockup
 
 import (
+	"bufio"
 	"encoding/hex"
 	"encoding/json"
 	"fmt"
+	"hash/fnv"
 	"math/rand"
 	"os"
 	"sort"
@@ -540,6 +542,8 @@ type recorder struct {
 	rng *rand.Rand
 	tw  *tracelog.Writer
 	st  stateDoc
+
+	maxEmpty int64
 }
 
 func (r *recorder) pick(pred func(l lockSt) bool) (lockSt, bool) {
@@ -648,6 +652,14 @@ func (r *recorder) observe(head map[string]any) {
 	r.st = r.w.project(ctx)
 	head["st"] = r.st
 	head["acc"] = r.w.accProbes(ctx, maxProbe)
+	// informational only (not a denomination, not validated): AddTokensToLockByID also writes to the
+	// accumulation store of the synthetic denom of a lock that has no synthetic lock, i.e. ""
+	if v := r.w.App.LockupKeeper.GetPeriodLocksAccumulation(ctx, lockuptypes.QueryCondition{Denom: "", Duration: 0}); v.IsInt64() {
+		head["accEmptyDenom"] = v.Int64()
+		if v.Int64() > r.maxEmpty {
+			r.maxEmpty = v.Int64()
+		}
+	}
 	head["q"] = r.battery(ctx)
 	r.tw.Emit(head)
 }
@@ -835,6 +847,7 @@ func TestRecord(t *testing.T) {
 	// "aaa" is a prefix of "aaab": index keys of one must never answer for the other
 	denoms := []string{"aaa", "aaab", "bbb"}
 	counts := map[string]int{}
+	recs := []*recorder{}
 	for h := 0; h < nh; h++ {
 		fund := map[string]map[string]int64{}
 		for _, n := range names {
@@ -851,6 +864,7 @@ func TestRecord(t *testing.T) {
 		}
 		w := newWorld(t, names, denoms, fund, allowed, 100)
 		r := &recorder{w: w, rng: rng, tw: tw}
+		recs = append(recs, r)
 		r.observe(map[string]any{"e": "cfg", "a": "init", "owners": names, "denoms": denoms, "allowed": allowed, "seed": seed, "h": h})
 		for i := 0; i < nops; i++ {
 			c := r.nextCall()
@@ -875,6 +889,11 @@ func TestRecord(t *testing.T) {
 	}
 	if err := tw.Close(); err != nil {
 		t.Fatal(err)
+	}
+	for _, r := range recs {
+		if int(r.maxEmpty) > counts["info:max-accumulation-of-empty-denom"] {
+			counts["info:max-accumulation-of-empty-denom"] = int(r.maxEmpty)
+		}
 	}
 	bz, _ := json.Marshal(counts)
 	fmt.Printf("RECORDED events=%d histories=%d counts=%s\n", tw.N, nh, bz)
@@ -1150,13 +1169,51 @@ func TestReplay(t *testing.T) {
 		t.Skip("VERIF_IN not set")
 	}
 	out := tracelog.EnvStr("VERIF_OUT", in+".result")
-	docs, err := tracelog.ReadLines[genDoc](in)
+	// VERIF_SHARD=i/n: this process keeps only the subtrees whose first action hashes to i (mod n)
+	var si, sn int
+	if _, err := fmt.Sscanf(os.Getenv("VERIF_SHARD"), "%d/%d", &si, &sn); err != nil || sn < 1 {
+		si, sn = 0, 1
+	}
+	f, err := os.Open(in)
 	if err != nil {
 		t.Fatal(err)
 	}
+	sc := bufio.NewScanner(f)
+	sc.Buffer(make([]byte, 1<<20), 1<<28)
 	root := &node{index: map[string]*node{}}
-	for i := range docs {
-		d := &docs[i]
+	ndocs := 0
+	shared := []*genDoc{} // depth-1 documents owned by another shard
+	for sc.Scan() {
+		if len(sc.Bytes()) == 0 {
+			continue
+		}
+		d := &genDoc{}
+		if err := json.Unmarshal(sc.Bytes(), d); err != nil {
+			t.Fatal(err)
+		}
+		// subtrees below depth 2 are dealt out by the hash of their first two actions; the root and
+		// the depth-1 states are walked by every shard that needs them (their refusals by one)
+		mine := func(k int) bool {
+			hh := fnv.New32a()
+			hh.Write([]byte(fmt.Sprint(d.H[:k])))
+			return int(hh.Sum32()%uint32(sn)) == si
+		}
+		switch {
+		case len(d.H) >= 2:
+			if !mine(2) {
+				continue
+			}
+		case len(d.H) == 1:
+			if !mine(1) {
+				d.Refused = nil
+				shared = append(shared, d)
+			}
+		default:
+			if si != 0 {
+				d.Refused = nil
+			}
+		}
+		ndocs++
 		n := root
 		for _, a := range d.H {
 			key := fmt.Sprint(a)
@@ -1170,6 +1227,26 @@ func TestReplay(t *testing.T) {
 		}
 		n.doc = d
 	}
+	f.Close()
+	if err := sc.Err(); err != nil {
+		t.Fatal(err)
+	}
+	// drop the depth-1 states of other shards that have nothing below them here
+	keep := []*node{}
+	for _, ch := range root.children {
+		foreign := false
+		for _, d := range shared {
+			if ch.doc == d {
+				foreign = true
+			}
+		}
+		if foreign && len(ch.children) == 0 {
+			ndocs--
+			continue
+		}
+		keep = append(keep, ch)
+	}
+	root.children = keep
 	if root.doc == nil {
 		t.Fatal("no document for the initial state")
 	}
@@ -1199,11 +1276,49 @@ func TestReplay(t *testing.T) {
 	w := newWorld(t, names, denoms, st0.Bal, st0.Allowed, st0.Now)
 	rp := &replayer{w: w, kinds: map[string]int{}, mm: []mismatch{}}
 	rp.walk(w.Ctx, root, [][]any{}, map[uint64]uint64{})
-	res := map[string]any{"behaviours": len(docs), "nodes": nodes, "steps": rp.steps, "refusals": rp.refusals,
+	res := map[string]any{"behaviours": ndocs, "nodes": nodes, "steps": rp.steps, "refusals": rp.refusals,
 		"kinds": rp.kinds, "mismatches": rp.mm}
 	bz, _ := json.Marshal(res)
 	if err := os.WriteFile(out, bz, 0o644); err != nil {
 		t.Fatal(err)
 	}
-	fmt.Printf("REPLAYED behaviours=%d steps=%d refusals=%d mismatches=%d\n", len(docs), rp.steps, rp.refusals, len(rp.mm))
+	fmt.Printf("REPLAYED behaviours=%d steps=%d refusals=%d mismatches=%d\n", ndocs, rp.steps, rp.refusals, len(rp.mm))
+}
+
+// ---------------------------------------------------------------------------
+// observations outside the property (run with VERIF_PROBE=1; not part of the check)
+
+func TestObservations(t *testing.T) {
+	if os.Getenv("VERIF_PROBE") == "" {
+		t.Skip("VERIF_PROBE not set")
+	}
+	names, denoms := []string{"o1", "o2"}, []string{"aaa", "aaab"}
+	fund := map[string]map[string]int64{"o1": {"aaa": 100, "aaab": 100}, "o2": {"aaa": 100, "aaab": 100}}
+	w := newWorld(t, names, denoms, fund, nil, 100)
+	k := w.App.LockupKeeper
+	must := func(o outcome) {
+		if !o.OK {
+			t.Fatal(o.Err)
+		}
+	}
+	must(w.exec(w.Ctx, call{A: "lock", O: "o1", D: "aaa", X: 2, Amt: 5}))
+	must(w.exec(w.Ctx, call{A: "lock", O: "o1", D: "aaab", X: 2, Amt: 7}))
+	must(w.exec(w.Ctx, call{A: "beginall", O: "o1"}))
+	far := w.Ctx.BlockTime().Add(time.Hour)
+	count := func(it storetypes.Iterator) int {
+		n := 0
+		for ; it.Valid(); it.Next() {
+			n++
+		}
+		it.Close()
+		return n
+	}
+	fmt.Printf("OBS exported but unused iterators with denom prefix pair aaa/aaab (one unlocking lock each):\n")
+	fmt.Printf("OBS   LockIteratorBeforeTimeDenom(aaa) yields %d entries (1 expected)\n", count(k.LockIteratorBeforeTimeDenom(w.Ctx, "aaa", far)))
+	fmt.Printf("OBS   AccountLockIteratorBeforeTimeDenom(o1, aaa) yields %d entries (1 expected)\n", count(k.AccountLockIteratorBeforeTimeDenom(w.Ctx, w.addr("o1"), "aaa", far)))
+	fmt.Printf("OBS   LockIteratorDenom(unlocking, aaa) yields %d entries (1 expected)\n", count(k.LockIteratorDenom(w.Ctx, true, "aaa")))
+	fmt.Printf("OBS   AccountLockIteratorDenom(unlocking, o1, aaa) yields %d entries (1 expected)\n", count(k.AccountLockIteratorDenom(w.Ctx, true, w.addr("o1"), "aaa")))
+	must(w.exec(w.Ctx, call{A: "add", O: "o1", D: "aaa", Amt: 3, ID: 1}))
+	fmt.Printf("OBS accumulation store of denom \"\" after AddTokensToLockByID(3aaa): %s (no lock holds that denom)\n",
+		k.GetPeriodLocksAccumulation(w.Ctx, lockuptypes.QueryCondition{Denom: "", Duration: 0}))
 }
